@@ -131,7 +131,7 @@ class RA {
     string S;
     uint16 T;
 };
-class RB : RA { string U; };
+class RB : RA { string U[]; };
 class RX {
     [Key] uint32 K;
     [Key] string K2;
